@@ -324,7 +324,8 @@ HEUR = {}        # program term -> {subroutine: AggressiveUnroll.inline_heuristi
 # ---------- fixed programs whose event COUNT or zone operands depend on shapes and on which of two equal-looking zones is taken ----------
 KIDLE_SRC = ("@tweezer\ndef kidle(a: float, b: float):\n    g = grid.from_positions([a, a + 1.0], [b, b + 2.0])\n    action.set_loc(g)\n    action.turn_on(action.ALL, [0])\n"
                "    action.move(grid.shift(g, 0.5, 0.0))\n    action.turn_on([], [1])\n    action.move(grid.shift(g, 0.5, 1.0))\n    action.turn_on([0, 1], [1])\n    action.turn_off([1], [])\n"
-               "    action.move(grid.shift(g, 1.5, 1.0))\n    action.turn_off(action.ALL, action.ALL)\n")
+               "    action.move(grid.shift(g, 1.5, 1.0))\n    action.turn_off([0], action.ALL)\n    action.turn_on([0], action.ALL)\n    action.move(grid.shift(g, 2.0, 1.0))\n"
+               "    action.turn_off(action.ALL, [1])\n    action.turn_off(action.ALL, action.ALL)\n")
 
 SHAPE_PROGS = {
     # a subroutine that hands back one of two closures, the acting one from inside a branch (an early return); the kernel calls what it got
